@@ -1243,7 +1243,15 @@ impl ser::SerializeSeq for ValueSerializeVec {
     where
         T: ser::Serialize + ?Sized,
     {
-        self.vec.push(Value::try_from(value)?);
+        // `None` cannot be an array element. Report it in a way the enclosing table cannot
+        // mistake for a `None` field, which it silently skips.
+        let value = Value::try_from(value).map_err(|e| match e.inner {
+            crate::edit::ser::Error::UnsupportedNone => {
+                <crate::ser::Error as ser::Error>::custom(crate::edit::ser::Error::UnsupportedNone)
+            }
+            _ => e,
+        })?;
+        self.vec.push(value);
         Ok(())
     }
 
